@@ -2,7 +2,9 @@
 
 Each variant is one edit of one file of a scratch copy of /repo/mappyfile (made under mktemp,
 removed afterwards).  'fire' variants must make the named property's check exit 1 with a VIOLATION;
-'silent' variants (behaviour-preserving twins) must leave it at exit 0.
+'silent' variants (behaviour-preserving twins) must leave it at exit 0; 'quiet' variants (the
+behaviour-preserving refactorings under /verif/benign/) must not make any check print VIOLATION
+(exit 0, or exit 2 = the analysis reports that it cannot evaluate the changed code).
 
     python -m sa.selftest [--prop C17] [--jobs 16] [--list]
 """
@@ -43,6 +45,16 @@ def load_variants() -> list[dict]:
                 if meta.get("expect_miss"):
                     continue
                 out.append({"id": "seed-" + name, "props": [meta.get("caught_by") or meta["property"]], "expect": "fire", "patch": pp})
+    # behaviour-preserving changes contributed by independent sub-agents: no check may print VIOLATION
+    bd = os.path.join(VERIF, "benign")
+    if os.path.isdir(bd):
+        for name in sorted(os.listdir(bd)):
+            pp = os.path.join(bd, name, "patch.diff")
+            mp = os.path.join(bd, name, "meta.json")
+            if os.path.isfile(pp) and os.path.isfile(mp):
+                with open(mp) as f:
+                    meta = json.load(f)
+                out.append({"id": "benign-" + name, "props": meta.get("props") or [f"C{i:02d}" for i in range(1, 21)], "expect": "quiet", "patch": pp})
     return out
 
 
@@ -79,6 +91,9 @@ def run_variant(v: dict, repo: str) -> dict:
             results[prop] = {"rc": p.returncode, "fired": fired, "first": next((l for l in p.stdout.splitlines() if l.startswith("  rule=")), "")[:300] if fired else p.stdout.strip().splitlines()[-1:][0][:300] if p.stdout.strip() else p.stderr[-300:]}
             if v["expect"] == "fire":
                 ok = ok and fired
+            elif v["expect"] == "quiet":
+                # no alarm: exit 0, or exit 2 (the analysis says it can no longer evaluate the changed code)
+                ok = ok and p.returncode in (0, 2) and "VIOLATION" not in p.stdout
             else:
                 ok = ok and p.returncode == 0
         return {"id": v["id"], "status": "pass" if ok else "FAIL", "expect": v["expect"], "results": results}
